@@ -659,14 +659,21 @@ class BaseNodeVisitor(ast.NodeVisitor):
             ):
                 self.used_ignores.add(lineno - 1)
                 return
-            prev_line = lines[lineno - 2].strip()
-            if (
-                prev_line == ignore_comment
-                or error_code is not None
-                and prev_line == f"{ignore_comment}[{error_code.name}]"
-            ):
-                self.used_ignores.add(lineno - 2)
-                return
+            # Look at all the own-line ignore comments directly above this line, so
+            # that several error codes can be ignored on the same line.
+            prev_index = lineno - 2
+            while prev_index >= 0:
+                prev_line = lines[prev_index].strip()
+                if not prev_line.startswith(ignore_comment):
+                    break
+                if (
+                    prev_line == ignore_comment
+                    or error_code is not None
+                    and prev_line == f"{ignore_comment}[{error_code.name}]"
+                ):
+                    self.used_ignores.add(prev_index)
+                    return
+                prev_index -= 1
 
         self.had_failure = True
 
